@@ -26,6 +26,7 @@ macro_rules! dispatch {
             "C01" => $f::<lanes::c01::C01>($($a),*),
             "C11" => $f::<lanes::c11::C11>($($a),*),
             "C12" => $f::<lanes::c12::C12>($($a),*),
+            "C13" => $f::<lanes::c13::C13>($($a),*),
             "C14" => $f::<lanes::c14::C14>($($a),*),
             "C15" => $f::<lanes::c15::C15>($($a),*),
             "C17" => $f::<lanes::c17::C17>($($a),*),
